@@ -40,24 +40,31 @@ FileIdx(fs, name) == CHOOSE i \in 1..Len(fs) : fs[i].name = name
 (***************************************************************************)
 (* Rendering (canonical layout) with the line of every declaration         *)
 (***************************************************************************)
-RECURSIVE RelLines(_, _, _)
-RelLines(rels, i, k) == IF i > Len(rels) THEN "" ELSE "    define " \o rels[i] \o ": [k" \o ToString(k) \o "]\n" \o RelLines(rels, i + 1, k)
-DeclText(d, k) == (IF d.kind = "ext" THEN "extend type " ELSE "type ") \o d.name \o "\n"
-                  \o (IF Len(d.rels) > 0 THEN "  relations\n" \o RelLines(d.rels, 1, k) ELSE "")
-DeclLen(d) == 1 + (IF Len(d.rels) > 0 THEN 1 + Len(d.rels) ELSE 0)
-CondText(c, k) == "condition " \o c \o "(x: int) {\n  x < " \o ToString(k) \o "\n}\n"
-RECURSIVE DeclsText(_, _, _)
-DeclsText(ds, i, k) == IF i > Len(ds) THEN "" ELSE DeclText(ds[i], k) \o DeclsText(ds, i + 1, k)
-RECURSIVE CondsText(_, _, _)
-CondsText(cs, i, k) == IF i > Len(cs) THEN "" ELSE CondText(cs[i], k) \o CondsText(cs, i + 1, k)
-HeaderText(f) == IF Modular(f) THEN "module " \o f.header \o "\n" ELSE "model\n  schema 1.1\n"
-HeaderLen(f) == IF Modular(f) THEN 1 ELSE 2
-Text(f, k) == HeaderText(f) \o DeclsText(f.decls, 1, k) \o CondsText(f.conds, 1, k)
-RECURSIVE SumLen(_, _)
-SumLen(ds, n) == IF n = 0 THEN 0 ELSE DeclLen(ds[n]) + SumLen(ds, n - 1)
-DeclLine(f, i) == HeaderLen(f) + SumLen(f.decls, i - 1)                              \* zero-based line of `type x` / `extend type x`
-RelLine(f, i, j) == DeclLine(f, i) + 1 + j                                            \* ... of the j-th `define`
-CondLine(f, j) == HeaderLen(f) + SumLen(f.decls, Len(f.decls)) + 3 * (j - 1)          \* ... of the j-th `condition`
+\* two layouts: tight (as the printer writes) and loose (f.loose: blanks before ':' and '(', several blanks after keywords,
+\* a comment line after the header and a blank line before every declaration) - the line lookups must cope with both
+Loose(f) == "loose" \in DOMAIN f /\ f.loose
+Gap(f) == IF Loose(f) THEN "   " ELSE " "
+RECURSIVE RelLines(_, _, _, _)
+RelLines(f, rels, i, k) == IF i > Len(rels) THEN "" ELSE "    define" \o Gap(f) \o rels[i] \o (IF Loose(f) THEN " :" ELSE ":") \o " [k" \o ToString(k) \o "]\n" \o RelLines(f, rels, i + 1, k)
+DeclText(f, d, k) == (IF Loose(f) THEN "\n" ELSE "")
+                     \o (IF d.kind = "ext" THEN "extend" \o Gap(f) \o "type" \o Gap(f) ELSE "type" \o Gap(f)) \o d.name \o "\n"
+                     \o (IF Len(d.rels) > 0 THEN "  relations\n" \o RelLines(f, d.rels, 1, k) ELSE "")
+DeclLen(f, d) == (IF Loose(f) THEN 1 ELSE 0) + 1 + (IF Len(d.rels) > 0 THEN 1 + Len(d.rels) ELSE 0)
+CondText(f, c, k) == (IF Loose(f) THEN "\n" ELSE "") \o "condition" \o Gap(f) \o c \o (IF Loose(f) THEN " (x: int) {\n  x < " ELSE "(x: int) {\n  x < ") \o ToString(k) \o "\n}\n"
+CondLen(f) == IF Loose(f) THEN 4 ELSE 3
+RECURSIVE DeclsText(_, _, _, _)
+DeclsText(f, ds, i, k) == IF i > Len(ds) THEN "" ELSE DeclText(f, ds[i], k) \o DeclsText(f, ds, i + 1, k)
+RECURSIVE CondsText(_, _, _, _)
+CondsText(f, cs, i, k) == IF i > Len(cs) THEN "" ELSE CondText(f, cs[i], k) \o CondsText(f, cs, i + 1, k)
+HeaderText(f) == (IF Modular(f) THEN "module " \o f.header \o "\n" ELSE "model\n  schema 1.1\n") \o (IF Loose(f) THEN "# declarations of " \o f.name \o "\n" ELSE "")
+HeaderLen(f) == (IF Modular(f) THEN 1 ELSE 2) + (IF Loose(f) THEN 1 ELSE 0)
+Text(f, k) == HeaderText(f) \o DeclsText(f, f.decls, 1, k) \o CondsText(f, f.conds, 1, k)
+RECURSIVE SumLen(_, _, _)
+SumLen(f, ds, n) == IF n = 0 THEN 0 ELSE DeclLen(f, ds[n]) + SumLen(f, ds, n - 1)
+LooseOff(f) == IF Loose(f) THEN 1 ELSE 0                                                         \* the blank line in front of a declaration
+DeclLine(f, i) == HeaderLen(f) + SumLen(f, f.decls, i - 1) + LooseOff(f)                          \* zero-based line of `type x` / `extend type x`
+RelLine(f, i, j) == DeclLine(f, i) + 1 + j                                                   \* ... of the j-th `define`
+CondLine(f, j) == HeaderLen(f) + SumLen(f, f.decls, Len(f.decls)) + CondLen(f) * (j - 1) + LooseOff(f)   \* ... of the j-th `condition`
 \* every declaration of a file with its line: <<"type"|"ext", name, "", line>>, <<"rel", type, relation, line>> (relations of extensions), <<"cond", name, "", line>>
 LineTable(f) == { <<f.decls[i].kind, f.decls[i].name, "", DeclLine(f, i)>> : i \in 1..Len(f.decls) }
            \cup UNION { { <<"rel", f.decls[i].name, f.decls[i].rels[j], RelLine(f, i, j)>> : j \in 1..Len(f.decls[i].rels) } : i \in { k \in 1..Len(f.decls) : f.decls[k].kind = "ext" } }
